@@ -63,15 +63,20 @@ class VStat:
 
 
 class World:
-    def __init__(self):
+    def __init__(self, t0=None, tz=None):
+        import time as _time
+        self.tz = tz
+        if tz:
+            os.environ["TZ"] = tz
+            _time.tzset()
         self.dir = tempfile.mkdtemp(prefix="c14-", dir=os.environ.get("VERIF_SCRATCH", "/tmp"))
         self.path = os.path.join(self.dir, "x.html")
         self.vstat = VStat(self.dir)
-        self.clock = T0
+        self.clock = T0 if t0 is None else t0
         self.version = 0
         self.size = 8
         self.versions = []  # recorded validators per version index: dict or None
-        self.mtime = T0
+        self.mtime = self.clock
         self.original = None
         self._write()
         self.original = (self.content(), self.size, self.mtime, self.version)
@@ -114,6 +119,10 @@ class World:
     def close(self):
         os.stat = self.vstat.real
         shutil.rmtree(self.dir, ignore_errors=True)
+        if self.tz:
+            import time as _time
+            os.environ["TZ"] = "UTC"
+            _time.tzset()
 
     def request(self, key, headers):
         iface, kind = key
@@ -146,9 +155,13 @@ def validator_headers(form, v):
     raise KeyError(form)
 
 
-def run_history(hist, r, collect_only=False):
+VARIANTS = [(0.0, None), (0.6, None), (0.0, "America/New_York"), (0.25, "Asia/Shanghai")]  # (fraction of a second on the file clock, process time zone)
+
+
+def run_history(hist, r, collect_only=False, variant=0):
     """hist: tuple of (mod_index or None, battery: bool). Index None = initial state step. Returns list of problems."""
-    w = World()
+    frac, tz = VARIANTS[variant]
+    w = World(t0=T0 + frac, tz=tz)
     problems = []
     try:
         # state id for validators: (content version, touch count, clock, size)
@@ -286,7 +299,12 @@ def run_shard(desc, tier):
     for i, h in enumerate(histories(DEPTH[tier])):
         if i % n != k:
             continue
+        # every history on the whole-second UTC clock; every history of depth <= 2 (thorough: all) also on a sub-second clock and in two other process time zones
         problems = run_history(h, r)
+        for v in range(1, len(VARIANTS)):
+            if len(h) <= 2 or tier == "thorough":
+                for p_ in run_history(h, r, variant=v):
+                    problems.append(p_[:3] + (f"[file clock +{VARIANTS[v][0]}s, TZ={VARIANTS[v][1] or 'UTC'}] " + p_[3],))
         r.count("traces")
         states.add(h)
         if any(b for _, b in h[:-1]) or len(h) > 0:
@@ -312,6 +330,8 @@ def replay(w):
         thread_pairs(r, w["threads"], "quick")
         return bool(r.viol), {"violations": sorted(r.viol), "texts": [v[2][:300] for v in r.viol.values()]}
     h = tuple((m, bool(b)) for m, b in w["history"])
-    problems = run_history(h, r)
+    problems = []
+    for v in range(len(VARIANTS)):
+        problems += run_history(h, r, variant=v)
     hits = [p for p in problems if list(p[1]) == w["app"] and p[2] == w["form"]]
     return bool(hits), {"problems": [p[3] for p in hits[:5]]}
